@@ -28,9 +28,15 @@ open Otel Otel.RelAcq
     of them in the source makes this `decide` fail. -/
 theorem gen_orders_sufficient : Spin.genOrders.ok = true ∧ Slot.genOrders.ok = true := by decide
 
-/-- the generated orders, spelled out (what the source says today; a *stronger* order keeps `gen_orders_sufficient`) -/
-example : Spin.genOrders = { tryLoad := .rlx, tryXchg := .acq, lockXchg := .acq, unlockSt := .rel } := by decide
-example : Slot.genOrders = { casOk := .rel, casFail := .rlx, swapX := .sc, resetX := .sc } := by decide
+/-- the orders the source has at the time of writing (the demonstrations and witnesses below use these fixed records, not
+    the generated ones, so that a *strengthened* order in the source changes nothing but `Gen/MemOrder.lean`) -/
+def spinSrc : Spin.Orders := { tryLoad := .rlx, tryXchg := .acq, lockXchg := .acq, unlockSt := .rel }
+def slotSrc : Slot.Orders := { casOk := .rel, casFail := .rlx, swapX := .sc, resetX := .sc }
+
+example : spinSrc.ok = true ∧ slotSrc.ok = true := by decide
+/-- `ok` is monotone: it only asks for "at least acquire" / "at least release" -/
+example : ({ tryLoad := .sc, tryXchg := .sc, lockXchg := .acqRel, unlockSt := .sc } : Spin.Orders).ok = true ∧
+    ({ casOk := .sc, casFail := .acq, swapX := .acq, resetX := .acqRel } : Slot.Orders).ok = true := by decide
 
 /-! ## (a) the spin-lock client -/
 
@@ -88,17 +94,20 @@ def spinDemo : List Spin.Act :=
   [.begin 0 false, .xchg 0, .csRead 0, .begin 1 false, .xchg 1, .csWrite 0, .unlock 0,
    .begin 2 true, .load 2 0, .xchg 2, .csRead 2, .csWrite 2, .unlock 2]
 
-example : (Spin.run Spin.genOrders Spin.init spinDemo).map (fun s => (s.m.race, s.hist, (s.m.na Spin.cellL).val)) =
+example : (Spin.run spinSrc Spin.init spinDemo).map (fun s => (s.m.race, s.hist, (s.m.na Spin.cellL).val)) =
     some (false, [(1, 2), (0, 1)], 2) := by decide
 
 /-- a stale test load misleads `try_lock` only as far as its `exchange`: with the lock held (latest message `true`)
     thread 2 still reads message 0 (`false`) and goes on to the exchange, which reads the latest message and fails -/
-example : ((Spin.run Spin.genOrders Spin.init [.begin 0 false, .xchg 0, .begin 2 true, .load 2 0]).map
+example : ((Spin.run spinSrc Spin.init [.begin 0 false, .xchg 0, .begin 2 true, .load 2 0]).map
     (fun s => (s.m.latestVal Spin.flagL, s.pcs 2))) = some (1, .txchg) := by decide
-example : ((Spin.run Spin.genOrders Spin.init [.begin 0 false, .xchg 0, .begin 2 true, .load 2 0, .xchg 2]).map
+example : ((Spin.run spinSrc Spin.init [.begin 0 false, .xchg 0, .begin 2 true, .load 2 0, .xchg 2]).map
     (fun s => (s.pcs 0, s.pcs 2))) = some (.csRead, .idle) := by decide
 /-- coherence: a thread that has exchanged cannot read an older message afterwards -/
-example : (Spin.run Spin.genOrders Spin.init [.begin 0 false, .xchg 0, .begin 1 false, .xchg 1, .begin 1 true, .load 1 0]).isNone = true := by decide
+example : (Spin.run spinSrc Spin.init [.begin 0 false, .xchg 0, .begin 1 false, .xchg 1, .begin 1 true, .load 1 0]).isNone = true := by decide
+
+/-- the hypothesis of `spin_gen_race_free` is satisfiable by the same schedule (enabledness does not depend on the orders) -/
+example : (Spin.run Spin.genOrders Spin.init spinDemo).isSome = true := by decide
 
 /-! ### the orders matter: weakened orders race (kernel-checked executions) -/
 
@@ -107,15 +116,15 @@ def spinRacy : List Spin.Act :=
 
 /-- `unlock` with a relaxed store: the next holder's read of the cell races with the previous holder's write -/
 theorem spin_relaxed_unlock_witness :
-    (Spin.run { Spin.genOrders with unlockSt := .rlx } Spin.init spinRacy).map (fun s => s.m.race) = some true := by decide
+    (Spin.run { spinSrc with unlockSt := .rlx } Spin.init spinRacy).map (fun s => s.m.race) = some true := by decide
 
 /-- `lock()`'s exchange relaxed -/
 theorem spin_relaxed_lock_witness :
-    (Spin.run { Spin.genOrders with lockXchg := .rlx } Spin.init spinRacy).map (fun s => s.m.race) = some true := by decide
+    (Spin.run { spinSrc with lockXchg := .rlx } Spin.init spinRacy).map (fun s => s.m.race) = some true := by decide
 
 /-- `try_lock()`'s exchange relaxed -/
 theorem spin_relaxed_trylock_witness :
-    (Spin.run { Spin.genOrders with tryXchg := .rlx } Spin.init
+    (Spin.run { spinSrc with tryXchg := .rlx } Spin.init
       [.begin 0 false, .xchg 0, .csRead 0, .csWrite 0, .unlock 0, .begin 1 true, .load 1 2, .xchg 1, .csRead 1]).map
       (fun s => s.m.race) = some true := by decide
 
@@ -124,7 +133,7 @@ theorem spin_relaxed_trylock_witness :
 theorem spin_weakened_not_race_free :
     ¬ (∀ (o : Spin.Orders) (acts : List Spin.Act) (s : Spin.St), Spin.run o Spin.init acts = some s → s.m.race = false) := by
   intro hall
-  cases hr : Spin.run { Spin.genOrders with unlockSt := .rlx } Spin.init spinRacy with
+  cases hr : Spin.run { spinSrc with unlockSt := .rlx } Spin.init spinRacy with
   | none => have := spin_relaxed_unlock_witness; rw [hr] at this; cases this
   | some s =>
     have h1 := hall _ _ s hr
@@ -135,7 +144,7 @@ theorem spin_weakened_not_race_free :
 
 /-- mutual exclusion itself does not depend on the orders (it only needs the atomicity of `exchange`): in the racy run
     both threads were never inside together - the race is on the data, through the missing happens-before edge -/
-example : (Spin.run { Spin.genOrders with unlockSt := .rlx } Spin.init spinRacy).map (fun s => (s.pcs 0, s.pcs 1)) =
+example : (Spin.run { spinSrc with unlockSt := .rlx } Spin.init spinRacy).map (fun s => (s.pcs 0, s.pcs 1)) =
     some (.idle, .csWrite 1) := by decide
 
 /-! ## (b) the slot hand-off of the ring buffer -/
@@ -180,28 +189,30 @@ def slotDemo : List Slot.Act :=
   [.start 0, .init 0, .casOk 0 0, .undo 0, .chk 0, .start 2, .init 2, .casFail 2 0 0 true, .casOk 0 1, .commit 0,
    .take 1 1 true, .tread 1, .casOk 2 0, .commit 2, .tdel 1, .take 1 0 false, .tread 1, .tdel 1]
 
-example : (Slot.run Slot.genOrders Slot.init slotDemo).map (fun s => (s.m.race, s.seen)) =
+example : (Slot.run slotSrc Slot.init slotDemo).map (fun s => (s.m.race, s.seen)) =
     some (false, [(1, 1, 2), (1, 0, 1), (0, 0, 1)]) := by decide
+
+example : (Slot.run Slot.genOrders Slot.init slotDemo).isSome = true := by decide
 
 def slotRacy : List Slot.Act := [.start 0, .init 0, .casOk 0 0, .commit 0, .take 1 0 false, .tread 1]
 
 /-- the slot CAS relaxed: the taker's read of the payload races with the producer's initialisation -/
 theorem slot_relaxed_cas_witness :
-    (Slot.run { Slot.genOrders with casOk := .rlx } Slot.init slotRacy).map (fun s => s.m.race) = some true := by decide
+    (Slot.run { slotSrc with casOk := .rlx } Slot.init slotRacy).map (fun s => s.m.race) = some true := by decide
 
 /-- the taking exchange relaxed (`Swap`) -/
 theorem slot_relaxed_swap_witness :
-    (Slot.run { Slot.genOrders with swapX := .rlx } Slot.init slotRacy).map (fun s => s.m.race) = some true := by decide
+    (Slot.run { slotSrc with swapX := .rlx } Slot.init slotRacy).map (fun s => s.m.race) = some true := by decide
 
 /-- the taking exchange relaxed (`Reset`) -/
 theorem slot_relaxed_reset_witness :
-    (Slot.run { Slot.genOrders with resetX := .rlx } Slot.init
+    (Slot.run { slotSrc with resetX := .rlx } Slot.init
       [.start 0, .init 0, .casOk 0 0, .commit 0, .take 1 0 true, .tread 1]).map (fun s => s.m.race) = some true := by decide
 
 theorem slot_weakened_not_race_free :
     ¬ (∀ (o : Slot.Orders) (acts : List Slot.Act) (s : Slot.St), Slot.run o Slot.init acts = some s → s.m.race = false) := by
   intro hall
-  cases hr : Slot.run { Slot.genOrders with casOk := .rlx } Slot.init slotRacy with
+  cases hr : Slot.run { slotSrc with casOk := .rlx } Slot.init slotRacy with
   | none => have := slot_relaxed_cas_witness; rw [hr] at this; cases this
   | some s =>
     have h1 := hall _ _ s hr
